@@ -692,3 +692,38 @@ def pool_counter_discipline(ctx, rule):
             ctx.ob(rule, "counter-write|%s" % g.id, "the worker counters are changed only by the RAII registration guard (and the pool's destructor): a manual increment/decrement pair leaks the count on early exits",
                    g.id == td.id, g.loc(bb))
     return n
+
+
+
+def read_buffer_bounded_by(f, read_bb, bound_locals):
+    """Is the buffer handed to the Read::read call at read_bb no longer than the *current* value of one of
+    `bound_locals` (a remaining-bytes counter)?  Recognised: a buffer allocated inside the same loop iteration with
+    a size derived from the counter (`vec![0; remaining.min(K)]`), a prefix slice `[..remaining]` / `[..n]` with n derived
+    from the counter in this iteration, or the `if buf.len() < remaining { buf } else { &mut buf[..remaining] }` form.
+    -> (bool, description)"""
+    t = f.term(read_bb)
+    o = f.origin(t["args"][1])
+    def mentions_counter(x):
+        return any(y[0] == "local" and y[1] in bound_locals for y in origin_walk(x)) or any(
+            y[0] == "field" and y[2] == "size" for y in origin_walk(x))
+    # prefix slice
+    for y in origin_calls(o):
+        if re.search(r"index(_mut)?$", y[1]) and len(y[2]) > 1:
+            rng = y[2][1]
+            if rng[0] == "agg" and str(rng[1]).endswith("RangeTo") and mentions_counter(rng[2][0]):
+                return True, "prefix slice bounded by the counter"
+    # allocation inside the loop, sized from the counter
+    allocs = [y for y in origin_calls(o) if re.search(r"vec::from_elem|Vec::<T>::with_capacity$", y[1])]
+    for y in allocs:
+        ab = y[3]
+        size = y[2][1] if len(y[2]) > 1 else (y[2][0] if y[2] else ("unknown",))
+        same_iteration = f.in_loop(ab) and read_bb in f.reach([ab], unwind=False) and ab in f.reach([read_bb], unwind=False)
+        if mentions_counter(size):
+            if same_iteration:
+                return True, "buffer allocated in each iteration with a size derived from the counter"
+            return False, "the buffer is sized from the counter once, outside the loop: later reads may ask for more than is left"
+    # multi-definition buffer local (EqualReader::read form) is checked by C03.2
+    if any(y[0] == "arg" for y in origin_walk(o)) and not allocs:
+        return True, "caller's buffer (bounded separately)"
+    # fixed-size scratch buffer: not bounded by the counter
+    return False, "the buffer is not bounded by what is left to read"
